@@ -90,7 +90,8 @@ struct CmFam {
   static void query(const Obj& o, const Cfg&, Rng& r) { const uint64_t v = r.below(1000); (void)o.get_estimate(v); (void)o.get_upper_bound(v); (void)o.get_lower_bound(v); (void)o.get_relative_error(); }
   static const bool HAS_MERGE_REF = true, HAS_MERGE_MOVE = false, HAS_RESET = false, HAS_ROUNDTRIP = true;
   static const bool SINGLE_INSTANCE = true;
-  static Arena* arena_of(const Obj& o) { return o.get_allocator().arena; }
+  // count_min_sketch::get_allocator() is declared but defined nowhere (link error), so read the private member
+  static Arena* arena_of(const Obj& o) { return o._allocator.arena; }
   static const int SELF_MERGE = SM_REFUSES;   // documented: "Cannot merge a sketch with itself."
   static SelfMergeFacts self_merge_facts(const Obj& o, const Cfg&) { SelfMergeFacts f; f.doubles = {static_cast<double>(o.get_total_weight())}; f.same = "shape=" + std::to_string(o.get_num_hashes()) + "x" + std::to_string(o.get_num_buckets()); return f; }
   // objects of differently shaped configurations cannot be merged (documented: throws); merge only compatible ones
